@@ -163,10 +163,19 @@ func (e *engine) Generate(seed uint64, idx int, tier string, avoid []harness.Fin
 	case x < 89:
 		c.Scen = "s6"
 		c.R = 2 + r.Intn(3)
-	case x < 94:
+	case x < 92:
 		c.Scen = "s5"
 		c.R = 1 + r.Intn(3) // calling routines
 		c.Iter = 1 + r.Intn(4)
+	case x < 94:
+		c.Scen = "s7"
+		c.R = 2 + r.Intn(3) // defining routines, one qualifier each
+		c.Iter = 1 + r.Intn(3)
+	case x < 96:
+		c.Scen = "s8"
+		c.R = 1 + r.Intn(3) // jobs, each calls its closure from a routine
+		c.Iter = 1 + r.Intn(4)
+		c.Kind = []string{"own", "own", "shared-locked", "made-in-routine"}[r.Intn(4)]
 	default:
 		c.Scen = "s4"
 		c.R = 2 + r.Intn(3)
@@ -375,6 +384,61 @@ func (c *Case) program(sfx string) program {
 		}
 		fmt.Fprintf(&b, " (dotimes (i %d) (setq fs (cons (channel-pop fch) fs)))\n (defvar *late%s* 7)\n (dolist (f fs) (sim-emit \"late\" (funcall f 0)))\n (setq *late%s* 8)\n (dolist (f fs) (sim-emit \"late\" (funcall f 0)))\n nil)\n", c.R, sfx, sfx)
 		return program{main: b.String()}
+	}
+	if c.Scen == "s7" {
+		// Several routines define methods of ONE generic function at the same
+		// time: routine t owns one qualifier for the specializer fixnum and
+		// defines it Iter times (versions 0..Iter-1). Definitions with
+		// different qualifiers commute, so after all routines have finished a
+		// call must run every routine's last version.
+		quals := []string{"", ":before", ":after", ":around"}
+		var setup strings.Builder
+		fmt.Fprintf(&setup, "(defgeneric sd%s (a))\n(defmethod sd%s ((a t)) (sim-emit \"ran\" 9 0) 'base)\n", sfx, sfx)
+		b.WriteString("(let ((fin (make-channel 64)))\n")
+		for t := 0; t < c.R; t++ {
+			var defs strings.Builder
+			for v := 0; v < c.Iter; v++ {
+				body := fmt.Sprintf("(sim-emit \"ran\" %d %d)", t, v)
+				if quals[t] == ":around" {
+					body += " (call-next-method)"
+				}
+				fmt.Fprintf(&defs, "(defmethod sd%s %s ((a fixnum)) %s) (sim-emit \"defd\" %d %d) ", sfx, quals[t], body, t, v)
+			}
+			fmt.Fprintf(&b, " (run (progn %s(channel-push fin %d)))\n", defs.String(), t)
+		}
+		fmt.Fprintf(&b, " (dotimes (i %d) (channel-pop fin))\n (sim-emit \"quiet\") (sd%s 1) (sim-emit \"end\") nil)\n", c.R, sfx)
+		return program{setup: setup.String(), main: b.String()}
+	}
+	if c.Scen == "s8" {
+		// Nested fork/join inside a closure: a closure over two counters
+		// starts two routines with run, each updating one of the closure's
+		// variables, and joins them over a channel; the closure itself is
+		// called from a routine started by run. The scope chain that run has
+		// to make safe has several parents here (call scope -> caller and
+		// closure scope).
+		var setup strings.Builder
+		lockA, lockB := "%s", "%s"
+		vars := "(evens 0) (odds 0)"
+		upA, upB := "(setq evens (+ evens 1))", "(setq odds (+ odds 1))"
+		res := "(list evens odds)"
+		if c.Kind == "shared-locked" {
+			vars = "(both 0) (m (make-mutex))"
+			lockA, lockB = "(with-mutex-lock m %s)", "(with-mutex-lock m %s)"
+			upA, upB = "(setq both (+ both 1))", "(setq both (+ both 1))"
+			res = "(list both both)"
+		}
+		fmt.Fprintf(&setup, "(defun make-splitter%s () (let (%s) (lambda (n) (let ((done (make-channel 2))) (run (progn (dotimes (i n) %s) (channel-push done 'a))) (run (progn (dotimes (i n) %s) (channel-push done 'b))) (channel-pop done) (channel-pop done) %s))))\n",
+			sfx, vars, fmt.Sprintf(lockA, upA), fmt.Sprintf(lockB, upB), res)
+		b.WriteString("(let ((fin (make-channel 64)))\n")
+		for t := 0; t < c.R; t++ {
+			if c.Kind == "made-in-routine" {
+				fmt.Fprintf(&b, " (run (let ((sp (make-splitter%s))) (sim-emit \"split\" %d (funcall sp %d)) (sim-emit \"split\" %d (funcall sp %d)) (channel-push fin %d)))\n", sfx, t, c.Iter, t, c.Iter, t)
+			} else {
+				fmt.Fprintf(&b, " (let ((sp (make-splitter%s))) (run (progn (sim-emit \"split\" %d (funcall sp %d)) (sim-emit \"split\" %d (funcall sp %d)) (channel-push fin %d))))\n", sfx, t, c.Iter, t, c.Iter, t)
+			}
+		}
+		fmt.Fprintf(&b, " (dotimes (i %d) (channel-pop fin)) nil)\n", c.R)
+		return program{setup: setup.String(), main: b.String()}
 	}
 	if c.Scen == "s5" {
 		// One routine redefines a method of a generic function that the
@@ -705,6 +769,10 @@ func (e *engine) Execute(raw json.RawMessage) (vd harness.Verdict) {
 		v = c.judgeS4(out, p, sfx, &vd)
 	case "s5":
 		v = c.judgeS5(out)
+	case "s7":
+		v = c.judgeS7(out)
+	case "s8":
+		v = c.judgeS8(out)
 	case "s6":
 		n := 0
 		for _, m := range out.marks {
@@ -884,6 +952,71 @@ func (c *Case) judgeS3(out runOut) *harness.Violation {
 		}
 		if finals[t] != want {
 			return viol("lost-update", "%s: final value of slot/key %d is %s, expected %s (R=%d iter=%d)", c.Kind, t, finals[t], want, c.R, c.Iter)
+		}
+	}
+	return nil
+}
+
+// judgeS7: after all defining routines have finished, one call runs the last
+// version of every routine's method (and not the shadowed base primary unless
+// no routine owns the primary - routine 0 always does).
+func (c *Case) judgeS7(out runOut) *harness.Violation {
+	quiet := false
+	ran := map[int]string{}
+	var order []string
+	for _, m := range out.marks {
+		f := fields(m.text)
+		switch f[0] {
+		case "quiet":
+			quiet = true
+		case "ran":
+			if quiet && m.task == 0 {
+				ran[atoi(f[1])] = f[2]
+				order = append(order, f[1])
+			}
+		}
+	}
+	if !quiet {
+		return viol("harness", "the defining routines never finished")
+	}
+	last := fmt.Sprint(c.Iter - 1)
+	for t := 0; t < c.R; t++ {
+		v, ok := ran[t]
+		if !ok {
+			return viol("lost-definition", "routine %d defined its %s method %d time(s) and was told so, but a call after all routines finished does not run it (ran: routines %v)", t, []string{"primary", ":before", ":after", ":around"}[t], c.Iter, order)
+		}
+		if v != last {
+			return viol("lost-definition", "a call after all routines finished runs version %s of routine %d's method, the last one defined is %s", v, t, last)
+		}
+	}
+	if _, base := ran[9]; base {
+		return viol("lost-definition", "the base primary ran although routine 0 defined a more specific primary (ran: routines %v)", order)
+	}
+	return nil
+}
+
+// judgeS8: every call of a splitter returns its two counters advanced by n.
+func (c *Case) judgeS8(out runOut) *harness.Violation {
+	calls := map[int]int{}
+	for _, m := range out.marks {
+		f := fields(m.text)
+		if f[0] != "split" {
+			continue
+		}
+		t := atoi(f[1])
+		calls[t]++
+		want := calls[t] * c.Iter
+		if c.Kind == "shared-locked" {
+			want *= 2
+		}
+		got := strings.Join(f[2:], " ")
+		if exp := fmt.Sprintf("(%d %d)", want, want); got != exp {
+			return viol("lost-update", "job %d, call %d of its splitter closure returned %s, expected %s (two routines started inside the closure each add %d)", t, calls[t], got, exp, c.Iter)
+		}
+	}
+	for t := 0; t < c.R; t++ {
+		if calls[t] != 2 {
+			return viol("harness", "job %d reported %d calls, expected 2", t, calls[t])
 		}
 	}
 	return nil
